@@ -46,13 +46,25 @@ Section Mono.
     destruct (fold_step_map r Sr lhs None Hl) as [E _]; [discriminate|]. exact E.
   Qed.
 
-  Theorem connect_dots_order_only lhs rhs :
+  Lemma pick_map lead lhs r : S r -> (forall x, In x lhs -> S x) ->
+    pick lead (map f lhs) (f r) = option_map f (pick lead lhs r).
+  Proof.
+    intros Sr Hl. unfold pick. rewrite (best_le_map lhs r Sr Hl).
+    assert (forall b, best_le lhs r = Some b -> S b) as Sb.
+    { rewrite best_le_fold. destruct (fold_step_map r Sr lhs None Hl) as [_ H]; [discriminate|exact H]. }
+    destruct (best_le lhs r) as [l|]; cbn [option_map]; [|reflexivity].
+    assert (S l) as Sl by (apply Sb; reflexivity).
+    unfold same_place. rewrite Hid, (Hle l r Sl Sr), (Hle r l Sr Sl).
+    destruct (N.eqb (dp_id l) lead && negb (dpos_le l r && dpos_le r l)); reflexivity.
+  Qed.
+
+  Theorem connect_dots_order_only lead lhs rhs :
     (forall x, In x lhs -> S x) -> (forall x, In x rhs -> S x) ->
-    connect_dots (map f lhs) (map f rhs) = connect_dots lhs rhs.
+    connect_dots lead (map f lhs) (map f rhs) = connect_dots lead lhs rhs.
   Proof.
     intros Hl. induction rhs as [|r rhs IH]; intros Hr; cbn [map connect_dots]; [reflexivity|].
-    rewrite (best_le_map lhs r (Hr r (or_introl eq_refl)) Hl).
-    destruct (best_le lhs r) as [l|]; cbn [option_map]; [|reflexivity].
+    rewrite (pick_map lead lhs r (Hr r (or_introl eq_refl)) Hl).
+    destruct (pick lead lhs r) as [l|]; cbn [option_map]; [|reflexivity].
     rewrite IH by (intros; apply Hr; right; assumption). rewrite !Hid. reflexivity.
   Qed.
 End Mono.
